@@ -154,6 +154,13 @@ class ExprMixin:
         return frozenset(vals), res
 
     def ex_BoolOp(self, n, st, frame, out):
+        if isinstance(n.op, ast.Or):
+            # value position: `a or b` yields a when a is truthy, else b
+            vals = []
+            for v in n.values:
+                x, st = self.eval(v, st, frame, out)
+                vals.append(x)
+            return V(("orelse", tuple(vals))), st
         f, st = self.cond(n, st, frame, out)
         return V(("bool", f)), st
 
@@ -462,6 +469,10 @@ class ExprMixin:
             elif tg == "bool":
                 if len(v) == 1:
                     return t[1]
+                decided.add(None)
+            elif tg == "orelse":
+                if len(v) == 1:
+                    return F.f_or([self.truthy(x, st) for x in t[1]])
                 decided.add(None)
             elif tg == "probe" and len(v) == 1:
                 return t
